@@ -279,6 +279,49 @@ fn desc_roundtrip(rep: &Report, cen: &mut Census) -> Vec<String> {
                 Err(p) => viol("parse-panics", p),
             }
         }
+        // the wrapper types have text forms of their own: same string, same object back
+        {
+            use miniscript::descriptor::{Bare, Pkh, Sh, Tr, Wpkh, Wsh};
+            macro_rules! inner_rt {
+                ($x:expr, $ty:ty, $name:expr) => {{
+                    let own = $x.to_string();
+                    if own != shown {
+                        viol("wrapper-display", format!("{}'s own display is '{}'", $name, own));
+                    }
+                    for s in [shown.clone(), body.clone()] {
+                        match guard(|| <$ty>::from_str(&s)) {
+                            Ok(Ok(p)) => {
+                                if &p != $x {
+                                    viol("wrapper-parse", format!("{}::from_str('{}') gives {}", $name, s, p));
+                                } else {
+                                    bump(cen, "wrapper_type_roundtrips_ok");
+                                }
+                            }
+                            Ok(Err(e)) => viol("wrapper-parse-fails", format!("{}::from_str('{}'): {}", $name, s, e)),
+                            Err(p) => viol("parse-panics", p),
+                        }
+                    }
+                }};
+            }
+            match &real {
+                Descriptor::Bare(x) => inner_rt!(x, Bare<String>, "Bare"),
+                Descriptor::Pkh(x) => inner_rt!(x, Pkh<String>, "Pkh"),
+                Descriptor::Wpkh(x) => {
+                    inner_rt!(x, Wpkh<String>, "Wpkh");
+                    if x.to_string_no_checksum() != body {
+                        viol("to_string_no_checksum", format!("Wpkh::to_string_no_checksum gives '{}'", x.to_string_no_checksum()));
+                    }
+                }
+                Descriptor::Sh(x) => inner_rt!(x, Sh<String>, "Sh"),
+                Descriptor::Wsh(x) => {
+                    inner_rt!(x, Wsh<String>, "Wsh");
+                    if x.to_string_no_checksum() != body {
+                        viol("to_string_no_checksum", format!("Wsh::to_string_no_checksum gives '{}'", x.to_string_no_checksum()));
+                    }
+                }
+                Descriptor::Tr(x) => inner_rt!(x, Tr<String>, "Tr"),
+            }
+        }
         strings.push(shown);
     }
     strings
@@ -738,6 +781,33 @@ fn wallet_policy_roundtrip(rep: &Report, cen: &mut Census) {
                             ds = ds.replace(&format!("@{}/{}", i, p), &full(i, p)).replace(&format!("@{}/**", i), &full(i, "**"));
                         }
                         if let Ok(Ok(d)) = guard(|| Descriptor::<DescriptorPublicKey>::from_str(&ds)) {
+                            // template text + key information set by hand -> the same descriptor
+                            {
+                                let n_keys = (0..3).filter(|i| ts.contains(&format!("@{}/", i))).count();
+                                let infos: Vec<DescriptorPublicKey> = xpubs[..n_keys].iter().map(|x| DescriptorPublicKey::from_str(x).expect("key information parses")).collect();
+                                // (what into_descriptor makes of hand-set key information is not a text round trip
+                                // and not part of C10: see DESIGN.md 8.4, observations outside the listed properties)
+                                // one key too few / too many is refused
+                                let mut wp4 = wp.clone();
+                                let mut more = infos.clone();
+                                more.push(DescriptorPublicKey::from_str(xpubs[0]).unwrap());
+                                if wp4.set_key_info(&more).is_ok() || wp4.set_key_info(&infos[..n_keys - 1]).is_ok() {
+                                    viol("set_key_info-arity", "key information of the wrong length accepted".into());
+                                }
+                                match guard(|| WalletPolicy::try_from(&d)) {
+                                    Ok(Ok(x)) => {
+                                        if Some(x.to_string()) != WalletPolicy::from_descriptor(&d).ok().map(|y| y.to_string()) {
+                                            viol("try_from-differs", "TryFrom<&Descriptor> differs from from_descriptor".into());
+                                        }
+                                    }
+                                    Ok(Err(_)) => {
+                                        if WalletPolicy::from_descriptor(&d).is_ok() {
+                                            viol("try_from-differs", "TryFrom<&Descriptor> refuses what from_descriptor accepts".into());
+                                        }
+                                    }
+                                    Err(pn) => viol("try_from-panics", pn),
+                                }
+                            }
                             match guard(|| WalletPolicy::from_descriptor(&d)) {
                                 Ok(Ok(back)) => {
                                     let expect = ts.replace("<0;1>/*", "**");
